@@ -20,7 +20,7 @@ func (w *World) NewFnCtx(key string) (*FnCtx, error) {
 		return nil, fmt.Errorf("contract-not-applicable: no function %q in the loaded packages", key)
 	}
 	fc := &FnCtx{w: w, fn: fn, key: key, vals: map[ssa.Value]Val{}, outs: map[*ssa.BasicBlock][]edgeOut{},
-		modPreds: map[string][]modPred{}, kindCnt: map[string]int{}, paramEV: map[string]EV{}, loops: map[*ssa.BasicBlock]*loopInfo{}, blockIns: map[*ssa.BasicBlock][]Term{}, blockVias: map[*ssa.BasicBlock][]string{}}
+		modPreds: map[string][]modPred{}, kindCnt: map[string]int{}, paramEV: map[string]EV{}, loops: map[*ssa.BasicBlock]*loopInfo{}, blockIns: map[*ssa.BasicBlock][]Term{}, blockVias: map[*ssa.BasicBlock][]string{}, dropped: map[*Clause]bool{}}
 	if fn.Pkg != nil {
 		fc.pkg = fn.Pkg.Pkg
 	} else if fn.Parent() != nil {
@@ -102,6 +102,9 @@ func (fc *FnCtx) Generate() (err error) {
 		for _, g := range fc.w.cs.Globals {
 			if fc.isInit && (g.pkgName() == fc.pkg.Name() || g.pkgName() == "canonicalizer") {
 				continue // established by this initialiser (or by one that runs later)
+			}
+			if fc.w.initPhase(fc.fn, g.pkgName()) {
+				continue // this function runs while that package is still being initialised
 			}
 			gp := fc.w.typePkgs[g.pkgName()]
 			if gp == nil {
@@ -265,7 +268,9 @@ func (fc *FnCtx) findLoops() error {
 	}
 	for n := range fc.contract.Loops {
 		if n < 1 || n > len(list) {
-			return fmt.Errorf("contract-not-applicable: %s has no loop %d (it has %d)", fc.key, n, len(list))
+			// The code no longer has this loop (e.g. it was replaced by a builtin). The clauses for it are dropped and the
+			// function's interface clauses (requires/ensures/modifies) still judge the new body.
+			fc.w.warnings = append(fc.w.warnings, fmt.Sprintf("%s: contract names loop %d but the function has %d loops; loop clauses ignored", fc.key, n, len(list)))
 		}
 	}
 	fc.loopList = list
@@ -408,7 +413,11 @@ func (fc *FnCtx) loopHead(li *loopInfo, in *State, inReach Term) {
 	for _, inv := range invs {
 		t, err := envIn.EvalBool(inv.Expr)
 		if err != nil {
-			panic(evalErr(fmt.Sprintf("%s:%d: loop %d invariant: %v", inv.File, inv.Line, li.ordinal, err)))
+			// the body no longer has the shape the invariant talks about (renamed or retyped local): drop the clause;
+			// the interface clauses still judge the function
+			fc.w.warnings = append(fc.w.warnings, fmt.Sprintf("%s:%d: loop %d invariant not applicable: %v", inv.File, inv.Line, li.ordinal, err))
+			fc.dropped[inv] = true
+			continue
 		}
 		tags := append([]string{"C02"}, inv.Tags...)
 		fc.obligeNoAssume("inv-init", t, fmt.Sprintf("loop %d invariant holds on entry: %s", li.ordinal, inv.Text), tags, inv.Label)
@@ -505,9 +514,13 @@ func (fc *FnCtx) loopHead(li *loopInfo, in *State, inReach Term) {
 	}
 	envH := fc.loopEnv(hs, li)
 	for _, inv := range invs {
+		if fc.dropped[inv] {
+			continue
+		}
 		t, err := envH.EvalBool(inv.Expr)
 		if err != nil {
-			panic(evalErr(fmt.Sprintf("%s:%d: loop %d invariant: %v", inv.File, inv.Line, li.ordinal, err)))
+			fc.dropped[inv] = true
+			continue
 		}
 		fc.assume(t)
 	}
@@ -610,9 +623,13 @@ func (fc *FnCtx) backEdge(li *loopInfo, st *State, cond Term) {
 		from = fc.curInstr.Block()
 	}
 	for _, inv := range fc.allInvariants(li) {
+		if fc.dropped[inv] {
+			continue
+		}
 		t, err := env.EvalBool(inv.Expr)
 		if err != nil {
-			panic(evalErr(fmt.Sprintf("%s:%d: loop %d invariant: %v", inv.File, inv.Line, li.ordinal, err)))
+			fc.dropped[inv] = true
+			continue
 		}
 		tags := append([]string{"C02"}, inv.Tags...)
 		fc.obligeSplit(from, "inv-pres", t, fmt.Sprintf("loop %d invariant preserved: %s", li.ordinal, inv.Text), tags, inv.Label)
@@ -979,4 +996,45 @@ func (g *GlobalInv) pkgName() string {
 		return g.Name[:i]
 	}
 	return ""
+}
+
+
+// initPhase: is fn (transitively) called from the package initialiser of pkgName? Such a function may run before the
+// package's global invariants hold, so it must not assume them.
+func (w *World) initPhase(fn *ssa.Function, pkgName string) bool {
+	if w.initReach == nil {
+		w.initReach = map[string]map[*ssa.Function]bool{}
+	}
+	reach, ok := w.initReach[pkgName]
+	if !ok {
+		reach = map[*ssa.Function]bool{}
+		if sp := w.ssaPkgs[pkgName]; sp != nil {
+			if init := sp.Func("init"); init != nil {
+				var visit func(f *ssa.Function)
+				visit = func(f *ssa.Function) {
+					if reach[f] {
+						return
+					}
+					reach[f] = true
+					for _, b := range f.Blocks {
+						for _, in := range b.Instrs {
+							var callee *ssa.Function
+							switch x := in.(type) {
+							case ssa.CallInstruction:
+								callee = x.Common().StaticCallee()
+							case *ssa.MakeClosure:
+								callee, _ = x.Fn.(*ssa.Function)
+							}
+							if callee != nil && callee.Blocks != nil && w.fnByKey[shortFuncKey(callee)] == callee {
+								visit(callee)
+							}
+						}
+					}
+				}
+				visit(init)
+			}
+		}
+		w.initReach[pkgName] = reach
+	}
+	return reach[fn]
 }
